@@ -421,6 +421,8 @@ def run(ctx):
     r = ctx.model_check(t, cf, workers=8, coverage=True, label="exhaustive", timeout=600)
     ctx.check_coverage(r, ["Direct", "Setup", "Iter", "Exhaust", "Finish"])
     ctx.check_proof("IterSolve_proofs")        # the same invariants for every iteration budget
+    from vlib import resulthistory
+    nrh = resulthistory.replay(ctx, ["solve:exact", "solve:cg", "solve:bicgstab", "solve:gmres"], "solve")
     for name, c2, inv in (("Unswap", dict(Unswap=RawTla('[m \\in {"cg", "bicgstab", "gmres", "exactsolve", "custom_exactsolve", "broyden1"} |-> m # "gmres"]')), "RetPlain"),
                           ("ReturnPassed", dict(ReturnPassed=False), "SilentPassed"), ("WarnIffNot", dict(WarnIffNot=False), "WarnedIffNotConverged")):
         c = dict(base)
